@@ -8,7 +8,7 @@
    modelled for the refutations:
      * `step_h_stale`   - the operation works on a COPY of the handle's metadata (the handle never learns what it wrote);
      * `fail_keep`      - a failed write_row_groups leaves the row groups it had finished in the handle's metadata
-                          (write_multi appends them in place; pinned behaviour before repo fix 006048a).               *)
+                          (write_multi appends them in place; pinned behaviour before repo fix 8453df6).               *)
 From Coq Require Import NArith ZArith List Bool Arith.
 From Pq Require Import Base.Bytes Dataset.FS Dataset.FsPaths Dataset.Edit.
 Import ListNotations.
@@ -46,7 +46,7 @@ Section H.
 
   (* a FAILED write_row_groups through the handle: `done` row groups were written completely (part files exist, unreferenced)
      before the failure; _metadata is not rewritten.  keep = true: they stay in the handle's metadata (pinned);
-     keep = false: the handle is put back as it was (fix 006048a) *)
+     keep = false: the handle is put back as it was (fix 8453df6) *)
   Definition fail_write (keep : bool) (sh : state * handle) (done : list rgroup) : state * handle :=
     let '(s, h) := sh in
     match find_max_part (map fst (h_sum h)) with
